@@ -398,19 +398,34 @@ def sentinel_rules(R, lib):
             calls_chain = [e for e in all_exprs(f.body) if e.k == 'call' and e.a[0].endswith('Chainable')]
             if not calls_chain:
                 continue
+            # locals that hold strlen(argument): declared with it and never written again
+            written = set()
+            for s in walk_stmts(f.body):
+                if s.k == 'assign':
+                    written.add(path_of(s.a[0]))
+            len_locals = {s.a[0] for s in walk_stmts(f.body)
+                          if s.k == 'decl' and s.a[2] is not None and _is_strlen(_uncast(s.a[2]), p0)
+                          and (s.a[0],) not in written and s.a[0] not in written}
+
+            def is_len(e, p0=p0, len_locals=len_locals):
+                return _is_strlen(e, p0) or (e.k == 'var' and e.a[0] in len_locals)
 
             class SR(Rule):
                 def initial(self_):
                     return ['unchecked']
 
                 def refine(self_, cond, st, truth):
-                    c = cond
-                    while c.k == 'cast':
-                        c = c.a[2]
-                    if c.k == 'bin' and c.a[0] in ('<', '!=', '>=', '==') and c.a[1].k == 'call' and c.a[1].a[0] == 'strlen' \
-                            and path_of(c.a[1].a[2][0]) == p0:
-                        long_enough = (c.a[0] in ('<', '!=')) != truth
-                        return 'checked' if long_enough else 'short'
+                    c = _uncast(cond)
+                    if c.k == 'not':
+                        return self_.refine(c.a[0], st, not truth)
+                    if c.k == 'bin' and c.a[0] in ('<', '<=', '>', '>=', '!=', '=='):
+                        op, l, r = c.a[0], _uncast(c.a[1]), _uncast(c.a[2])
+                        if is_len(r) and not is_len(l):
+                            op = {'<': '>', '<=': '>=', '>': '<', '>=': '<=', '!=': '!=', '==': '=='}[op]
+                            l, r = r, l
+                        if is_len(l):
+                            long_enough = (op in ('<', '<=', '!=')) != truth
+                            return 'checked' if long_enough else 'short'
                     return st
 
                 def event(self_, e, st, tr):
@@ -427,6 +442,16 @@ def sentinel_rules(R, lib):
                         if not (e.k == 'call' and e.a[0].endswith('::forError')):
                             R.violation('R3-str', f.name + ':short', stmt.loc, 'a too-short string does not produce forError()')
             Engine(SR()).run(f.body)
+
+
+def _uncast(e):
+    while e is not None and e.k == 'cast':
+        e = e.a[2]
+    return e
+
+
+def _is_strlen(e, p0):
+    return e is not None and e.k == 'call' and e.a[0] == 'strlen' and len(e.a[2]) == 1 and path_of(e.a[2][0]) == p0
 
 
 def _pure_receiver(e):
@@ -991,6 +1016,11 @@ SELFTEST = [
          replace='      epochSeconds += timeOffset.toSeconds();', rule='R3-for', construct='OffsetDateTime::forEpochSeconds'),
     dict(id='length-test-deleted', file='src/ace_time/LocalTime.cpp',
          find='  if (strlen(timeString) < kTimeStringLength) {\n    return forError();\n  }\n', replace='', rule='R3-str'),
+    dict(id='length-test-through-local-silent', file='src/ace_time/LocalTime.cpp',
+         find='  if (strlen(timeString) < kTimeStringLength) {\n    return forError();\n  }\n  return forTimeStringChainable(timeString);',
+         replace='  const size_t n = strlen(timeString);\n  return (kTimeStringLength > n) ? forError() : forTimeStringChainable(timeString);', expect='silent'),
+    dict(id='length-test-inverted', file='src/ace_time/LocalTime.cpp',
+         find='  if (strlen(timeString) < kTimeStringLength) {', replace='  if (strlen(timeString) >= kTimeStringLength) {', rule='R3-str'),
     dict(id='fill-before-range-test', file='src/ace_time/BasicZoneProcessor.h', regex=True,
          find=r'      if \(yearTiny \+ LocalDate::kEpochYear < mZoneInfo.startYear\(\) - 1\n          \|\| mZoneInfo.untilYear\(\) < yearTiny \+ LocalDate::kEpochYear\) \{\n        return false;\n      \}\n\n      basic::ZoneEraBroker priorEra = addTransitionPriorToYear\(yearTiny\);\n',
          replace='      basic::ZoneEraBroker priorEra = addTransitionPriorToYear(yearTiny);\n      if (yearTiny + LocalDate::kEpochYear < mZoneInfo.startYear() - 1\n          || mZoneInfo.untilYear() < yearTiny + LocalDate::kEpochYear) {\n        return false;\n      }\n\n',
